@@ -214,10 +214,23 @@ func checkC12(c *core.Check) {
 	var chains [][]core.GenJob
 	type ref struct{ spec int }
 	var chainSpec []int
+	var chainStride []int
+	// in every other process another invocation runs before each run of the spec under test - other spec, other
+	// options (CORS on, no DO NOT EDIT header, a base path, no client): what it was asked must not stick to the process
+	disturber := core.GenJob{Spec: string(extFat), SpecName: "other.yaml", Package: "other", SpecHandler: "other.yaml", Client: false, APIHandler: true, DoNotEdit: false, BasePath: "/other", Config: "cors:\n  enable: true\n"}
 	for si, s := range specs {
 		for p := 0; p < procs; p++ {
 			var ch []core.GenJob
+			stride := 1
+			if p%2 == 1 {
+				stride = 2
+			}
 			for k := 0; k < perProc; k++ {
+				if stride == 2 {
+					d := disturber
+					d.ID = fmt.Sprintf("x%dp%dk%d", si, p, k)
+					ch = append(ch, d)
+				}
 				j := s.job
 				j.ID = fmt.Sprintf("s%dp%dk%d", si, p, k)
 				j.Package = "gen"
@@ -225,6 +238,7 @@ func checkC12(c *core.Check) {
 			}
 			chains = append(chains, ch)
 			chainSpec = append(chainSpec, si)
+			chainStride = append(chainStride, stride)
 		}
 	}
 	res := core.RunGenChains(chains, 0)
@@ -237,11 +251,14 @@ func checkC12(c *core.Check) {
 	detail := map[string][]string{}
 	for ci, rs := range res {
 		si := chainSpec[ci]
-		if len(rs) != perProc {
+		if len(rs) != perProc*chainStride[ci] {
 			c.HarnessError(fmt.Sprintf("spec %s: worker failure %+v", specs[si].name, rs))
 			return
 		}
-		for _, r := range rs {
+		for ri, r := range rs {
+			if chainStride[ci] == 2 && ri%2 == 0 {
+				continue // the other invocation
+			}
 			if strings.HasPrefix(r.Err, "HARNESS") {
 				c.HarnessError("generation: " + r.Err)
 				return
